@@ -36,6 +36,8 @@ var c17Faults = []struct{ src, msgPart string }{
 	{"@each(v in [1, secretVar])x@end", "secretVar"},
 	{"@for(i = 0; i < secretVar; i++)x@end", "secretVar"},
 	{"{{ x = [[1], [2, secretVar]] }}", "secretVar"},
+	{"@dump(secretVar)", "secretVar"},
+	{"@dump(1, [secretVar])", "secretVar"},
 }
 
 const c17Marker = "MARK-"
@@ -263,7 +265,7 @@ func init() {
 	p := &Property{
 		ID:    "C17",
 		Level: "exploration",
-		Rule: "complete product: {debug on, off} x {no / valid / missing / run-time-failing / nested-directory custom error page} x {succeeding page; page failing at its start / middle / end after marker output; failing inside its layout, inside an insert, inside a component, after a component, in the second pass of a loop; unknown template} x four error kinds (one whose message contains a per cent sign; pages and the custom error page contain per cent signs too) x {first call, repeated call, after an earlier failing Response served under the opposite debug mode in the same process, after one under the same mode with another error}; plus a non-interference pass: with debug off the body must be byte-identical for every failing template and error kind.  [as built: 12 fault forms (failing identifier / operator / division / modulo, and a failure in a later array element, a later call argument, an object value, a ternary arm, @if / @each / @for headers, a nested assignment); variants first / second call / prior failing Response under the opposite or same debug mode / loaded under the opposite debug mode then Configure]" +
+		Rule: "complete product: {debug on, off} x {no / valid / missing / run-time-failing / nested-directory custom error page} x {succeeding page; page failing at its start / middle / end after marker output; failing inside its layout, inside an insert, inside a component, after a component, in the second pass of a loop; unknown template} x four error kinds (one whose message contains a per cent sign; pages and the custom error page contain per cent signs too) x {first call, repeated call, after an earlier failing Response served under the opposite debug mode in the same process, after one under the same mode with another error}; plus a non-interference pass: with debug off the body must be byte-identical for every failing template and error kind.  [as built: 14 fault forms (failing identifier / operator / division / modulo, and a failure in a later array element, a later call argument, an object value, a ternary arm, @if / @each / @for headers, a nested assignment, @dump arguments); variants first / second call / prior failing Response under the opposite or same debug mode / loaded under the opposite debug mode then Configure]" +
 			"Non-trivial: the render fails",
 		Bounds: func(tier string) map[string]any {
 			return map[string]any{"configurations": 2 * 5 * len(c17Pages) * len(c17Faults) * 5, "complete": true}
